@@ -80,8 +80,23 @@ pub fn trigger_json(e: &TriggerEvent) -> Value {
     json!({"e": name, "m": m})
 }
 
-pub fn dur_json(d: VDur) -> Value {
-    json!([d.0 / 1_000_000, d.0 % 1_000_000])
+/// durations of the virtual clock and of std::time, as whole micro-seconds
+pub trait DurUs: Copy {
+    fn us(&self) -> u64;
+}
+impl DurUs for VDur {
+    fn us(&self) -> u64 {
+        self.0
+    }
+}
+impl DurUs for std::time::Duration {
+    fn us(&self) -> u64 {
+        self.as_micros() as u64
+    }
+}
+
+pub fn dur_json<D: DurUs>(d: D) -> Value {
+    json!([d.us() / 1_000_000, d.us() % 1_000_000])
 }
 
 pub fn no_act() -> Value {
@@ -89,7 +104,10 @@ pub fn no_act() -> Value {
            "timeout": [0, 0], "duration": [0, 0]})
 }
 
-pub fn act_json(a: &TriggerAction<VTime>) -> Value {
+pub fn act_json<T: maybenot::time::Instant>(a: &TriggerAction<T>) -> Value
+where
+    T::Duration: DurUs,
+{
     match a {
         TriggerAction::Cancel { machine, timer } => json!({
             "kind": "Cancel", "m": machine.into_raw(), "bypass": false, "replace": false,
@@ -140,7 +158,10 @@ pub fn event_name(e: Event) -> String {
     format!("{:?}", e)
 }
 
-pub fn render(rec: &Rec<VTime>, g: &mut Gaps) -> Option<Value> {
+pub fn render<T: maybenot::time::Instant>(rec: &Rec<T>, g: &mut Gaps) -> Option<Value>
+where
+    T::Duration: DurUs,
+{
     Some(match rec {
         Rec::Call { .. } => return None, // the driver writes the call line (it knows t)
         Rec::Event { event } => {
@@ -194,15 +215,18 @@ pub fn render(rec: &Rec<VTime>, g: &mut Gaps) -> Option<Value> {
     })
 }
 
-pub fn snap_json(s: &Snapshot<VTime>, g: &mut Gaps) -> Value {
+pub fn snap_json<T: maybenot::time::Instant>(s: &Snapshot<T>, g: &mut Gaps) -> Value
+where
+    T::Duration: DurUs,
+{
     json!({
         "rt": s.machines.iter().map(|m| json!({
             "s": target_code(m.current_state), "lim": g.enc(m.state_limit),
             "pad": g.enc(m.padding_sent), "norm": g.enc(m.normal_sent),
-            "blk": g.enc(m.blocking_duration.0), "a": g.enc(m.counter_a), "b": g.enc(m.counter_b)
+            "blk": g.enc(m.blocking_duration.us()), "a": g.enc(m.counter_a), "b": g.enc(m.counter_b)
         })).collect::<Vec<_>>(),
         "gpad": g.enc(s.padding_sent_packets), "gnorm": g.enc(s.normal_sent_packets),
-        "gblk": g.enc(s.blocking_duration.0), "active": s.blocking_active,
+        "gblk": g.enc(s.blocking_duration.us()), "active": s.blocking_active,
         "pending": s.signal_pending})
 }
 
